@@ -16,6 +16,41 @@ type Program struct {
 	// lazily in its untouched state. Only meaningful for the first program a
 	// process executes (replays run in a fresh process).
 	Cold bool `json:"cold,omitempty"`
+	// HashKey: the value of VERIF_HASHKEY the process that generated the
+	// program ran under (seeds of the stand-ins for hash/maphash and
+	// math/rand are a function of it); 0 for trees that draw no randomness.
+	HashKey uint64 `json:"hashkey,omitempty"`
+	// ClockSeed: non-zero for trees that read the clock. The logical clock
+	// advances by one microsecond per statement, and at the start of every
+	// operation by a jump that is a function of (ClockSeed, epoch, task,
+	// operation index): mostly nothing, sometimes milliseconds to days (a
+	// caller may be descheduled for any length of time; never backwards).
+	ClockSeed uint64 `json:"clockseed,omitempty"`
+}
+
+// ClockJump is the forward jump of the logical clock (nanoseconds) at the
+// start of operation oi of task ti in epoch ei.
+func (p *Program) ClockJump(ei, ti, oi int) int64 {
+	if p.ClockSeed == 0 {
+		return 0
+	}
+	h := p.ClockSeed + uint64(ei)*0x9e3779b97f4a7c15 + uint64(ti)*0xbf58476d1ce4e5b9 + uint64(oi)*0x94d049bb133111eb
+	h ^= h >> 30
+	h *= 0xbf58476d1ce4e5b9
+	h ^= h >> 27
+	h *= 0x94d049bb133111eb
+	h ^= h >> 31
+	switch h % 16 {
+	case 0:
+		return int64(h>>8%1000) * 1_000_000 // up to a second
+	case 1:
+		return int64(h>>8%120) * 1_000_000_000 // up to two minutes
+	case 2:
+		return int64(h>>8%48) * 3_600_000_000_000 // up to two days
+	case 3:
+		return int64(h >> 8 % 100_000) // up to 100 microseconds
+	}
+	return 0
 }
 
 // Pool describes by-reference inputs that several tasks share.
